@@ -1,13 +1,18 @@
 (* C19 - zip-based formats are identified from their leading entry names.
-   PARTIAL: proved are the first-entry clauses (a signature that is a prefix of the first entry's name is
-   found immediately: JAR; the offset-30 OpenDocument / EPUB signatures) and the structure of the zip
-   sub-tree on the regenerated data (every zip-based format has application/zip as parent; apk is tried
-   before jar - the source of known finding K3).  The five-hop walk over later entries (OOXML markers at
-   entries 2..6, the converse) is decided on the implementation: archives written by archive/zip, the entry
-   list read back with archive/zip as oracle, judged by the extracted predicates c19_forward / c19_converse /
-   no_marker; K2 (an entry of footprint < 26 bytes before the marker) and K3 are known findings. *)
+   Proved: the first-entry clauses (JAR; the offset-30 OpenDocument / EPUB signatures); the structure of the zip
+   sub-tree on the regenerated data (every zip-based format has application/zip as parent; apk is tried before
+   jar - the source of known finding K3); and the five-hop walk (C19_walk): for an archive laid out as local
+   entries (30-byte header, name, tail) followed by the central directory, under the layout conditions a standard
+   writer guarantees - after offset 26 of an entry's footprint the next local-header signature is the next entry's
+   header (footprint >= 26 bytes: K2 otherwise; no embedded signature), the first entry's compressed-size field
+   points into or right behind its own footprint - and when the signature test at a name start is decided by the
+   name (K5 otherwise), zipContains answers exactly "the signature is a prefix of one of the first six entry names,
+   and for OOXML the first entry is one of the bookkeeping parts".  C19_hop_condition derives the hop condition
+   from byte-level facts.  That archive/zip produces such layouts (data descriptors, zero size fields when
+   streaming, no signature in deflated data of the generated bodies) is established on archives written by
+   archive/zip with the entry list read back as oracle (c19 channel, predicates c19_forward / c19_converse). *)
 From Verif Require Import Base.Bytes Model.Types Model.GoLite Model.Zip Model.Detect Gen.TreeData Gen.SigData
-  Spec.SpecZip Proofs.ZipP.
+  Spec.SpecZip Proofs.ZipP Proofs.ZipWalkP.
 
 Theorem C19_first_entry_signature_found :
   forall skip hdr name rest sig mso,
@@ -42,6 +47,40 @@ Theorem C19_markers_are_spec :
   /\ hd [] (lits_of "zipContains"%string) = pk34 /\ hd [] skip_files = ct_name.
 Proof. vm_compute. repeat split. Qed.
 Print Assumptions C19_markers_are_spec.
+
+(* the walk over a laid-out archive *)
+Theorem C19_walk :
+  forall skip sig mso central e1 es',
+    walkable sig (e1 :: es') central -> first_ok e1 es' central ->
+    (forall sf, In sf skip -> has_prefix sf (at_name e1 es' central) = has_prefix sf (e_name e1)) ->
+    zip_contains skip (layout (e1 :: es') central) sig mso =
+      has_prefix sig (e_name e1) ||
+      ((negb mso || existsb (fun sf => has_prefix sf (e_name e1)) skip) &&
+       existsb (fun x => has_prefix sig (e_name x)) (firstn 5 es')).
+Proof. exact zip_contains_layout. Qed.
+Print Assumptions C19_walk.
+
+(* where the hop condition comes from: footprint >= 26, the next header starts with the signature, and no
+   signature occurs from offset 26 of the footprint up to that header *)
+Theorem C19_hop_condition :
+  forall e e2 es2 central,
+    26 <= length (gap e) -> has_prefix pk34 (e_hdr e2) = true ->
+    (forall j, 26 <= j < length (gap e) -> ~ occurs_at (at_name e (e2 :: es2) central) j) ->
+    hop_ok e (e2 :: es2) central.
+Proof. exact hop_ok_intro. Qed.
+Print Assumptions C19_hop_condition.
+
+(* non-vacuity: a three-entry OOXML package (sizes zero in the local headers, as a streaming writer leaves them) *)
+Definition ex_hdr : bytes := pk34 ++ repeat 0%N 26.
+Definition ex_entries : list entry :=
+  [mk_entry ex_hdr (b "[Content_Types].xml") (repeat 65%N 40);
+   mk_entry ex_hdr (b "docProps/app.xml") (repeat 66%N 30);
+   mk_entry ex_hdr (b "word/document.xml") (repeat 67%N 30)].
+Example C19_walk_example :
+  walkable (b "word/") ex_entries [80;75;1;2]%N /\
+  first_ok (hd (mk_entry [] [] []) ex_entries) (tl ex_entries) [80;75;1;2]%N /\
+  zip_contains skip_files (layout ex_entries [80;75;1;2]%N) (b "word/") true = true.
+Proof. vm_compute. repeat split; try reflexivity; try lia. Qed.
 
 Example C19_jar_example :
   zc ([80;75;3;4]%N ++ repeat 0%N 26 ++ b "META-INF/MANIFEST.MF" ++ b "Manifest-Version: 1.0") manifest_name false = true.
